@@ -501,7 +501,16 @@ fn materialize(p: &Project, l: &Layout) -> tempfile::TempDir {
   for i in &l.src_order {
     write(root, &p.files[*i].0, &p.files[*i].1);
   }
-  for r in &p.rules {
+  for (k, r) in p.rules.iter().enumerate() {
+    if k % 3 == 1 {
+      // the cases of one rule spread over two test files with the same id: their snapshots share
+      // one snapshot file
+      let t1 = json!({"id": r.id, "valid": r.misses, "invalid": r.hits[..1]});
+      let t2 = json!({"id": r.id, "invalid": r.hits[1..3]});
+      write(root, &format!("tests/{}-test.yml", r.id), &serde_yaml::to_string(&t1).unwrap());
+      write(root, &format!("tests/more/{}-more-test.yml", r.id), &serde_yaml::to_string(&t2).unwrap());
+      continue;
+    }
     let t = json!({"id": r.id, "valid": r.misses, "invalid": r.hits[..3]});
     write(root, &format!("tests/{}-test.yml", r.id), &serde_yaml::to_string(&t).unwrap());
   }
